@@ -105,6 +105,50 @@ def enumerated(depth):
                 reqs.append(request(0x100000, fails, ops))
     return reqs
 
+def big_cases():
+    """large blocks: growth and shrinking across several orders of magnitude (a size- or difference-dependent fast path in realloc
+    must still preserve the prefix and stay inside its backend block).  Too large for the list-based model: these histories are
+    judged by oracles on the implementation's own output only.  -> [(request, small size, big size)]"""
+    out = []
+    BIG = [0x300000, 0x200064, 0x100007, 0x100000, 0xfffff, 0x10001, 0x2000]
+    SMALL = [1, 0x40, 0x1000, 0xffff8]
+    for b in BIG:
+        for sm in SMALL:
+            if sm >= b: continue
+            for via in ("r", "a"):
+                shrink = tok_r(0, sm) if via == "r" else tok_a(0, sm, 1)
+                grow = tok_r(0, b) if via == "r" else tok_a(0, b // 8, 8)
+                ops = [tok_m(0, b), tok_s(0, 0, b, 0x31), tok_m(1, 0x20), tok_s(1, 0, 0x20, 0x32), shrink, tok_l(0), tok_l(1),
+                       tok_m(2, 0x30), tok_s(2, 0, 0x30, 0x33), grow, tok_l(0), tok_l(1), tok_l(2), tok_f(0), tok_f(1), tok_f(2)]
+                out.append(("big" + request(0x100000000, (), ops), sm, b if via == "r" else (b // 8) * 8))
+    return out
+
+def check_big(chk, exes):
+    cases = big_cases()
+    for fl, exe in exes.items():
+        impl = lib.run_lines(exe, [c[0] for c in cases])
+        chk.cov["evaluations"] += len(cases)
+        for (rq, sm, b), o in zip(cases, impl):
+            pr = split_result(o[3:] if o.startswith("big") else o)
+            if pr is None:
+                chk.violation("implementation crashed or gave no result on a large-block history (%s build): %s" % (fl, o[:200]), {"request": rq, "impl": o[:2000], "build": fl}); continue
+            ops_res, end = pr
+            why = None
+            if end.get("fault") != "0": why = "the backend was handed a pointer that is not the start of a live block"
+            elif end.get("guard") != "1": why = "bytes outside a backend block were written"
+            elif end.get("live") not in ("", "-", "0", None) and end.get("live") != "": why = None
+            data = [r.split("/")[4] if r != "skip" and len(r.split("/")) >= 5 else None for r in ops_res]
+            def rle_prefix(d, byte, n):   # does the run-length encoded data begin with n bytes of value byte?
+                if d in (None, "-", "_"): return n == 0
+                first = d.split(".")[0].split("*"); return int(first[0], 16) == byte and int(first[1], 16) >= n
+            if why is None and len(data) >= 13:
+                if not rle_prefix(data[5], 0x31, sm): why = "shrinking a block of %x bytes to %x lost its content" % (b, sm)
+                elif data[6] != "32*20": why = "a neighbouring block changed while another one was shrunk"
+                elif not rle_prefix(data[10], 0x31, sm): why = "growing a block from %x to %x bytes lost the common prefix" % (sm, b)
+                elif data[11] != "32*20" or data[12] != "33*30": why = "a neighbouring block changed while another one was grown"
+            if why: chk.violation(why + " (large-block history)", {"request": rq, "impl": o[:2000], "build": fl})
+    return len(cases)
+
 def gen_cases(chk):
     tier = chk.tier; rng = chk.rng
     reqs = enumerated(2 if tier == "quick" else 3)
@@ -248,7 +292,9 @@ def run(chk):
         else: dist["histories_ending_live"] += 1
         if interesting: nontrivial.add(rq)
     chk.cov["distinct_nontrivial"] = len(nontrivial)
-    chk.cov["rule"] = ("all call sequences of length <= %d over a %d-call alphabet (sizes 0,1,8,9,SIZE_MAX-7; overflowing and "
+    nbig = check_big(chk, exes)
+    chk.cov["rule"] = ("%d large-block histories (blocks up to 3 MiB shrunk and grown through realloc and reallocarray, judged on the implementation only); " % nbig +
+                       "all call sequences of length <= %d over a %d-call alphabet (sizes 0,1,8,9,SIZE_MAX-7; overflowing and "
                        "wrapping products; free; two slots) x {no backend failure, failure at each position}, plus random histories of "
                        "4..80 calls on <= 6 live blocks with sizes {0,1,7,8,9,4096,2^63,SIZE_MAX-8,SIZE_MAX-7,SIZE_MAX,..}, element-count "
                        "pairs around 2^32, random backend failure plans and caps; a history is non-trivial when a realloc moved a block, "
